@@ -1007,9 +1007,11 @@ static void gather_part(Result &r)
       int rc = px->config(conf);
       colvarbias_histogram *h = dynamic_cast<colvarbias_histogram *>(px->bias("h"));
       if (rc != 0 || !h) {
-        // The statement does not promise that a documented configuration is accepted: this is recorded (counter and
-        // note), not reported; the per-element-weights clause is simply not exercised on such a build.
+        // A documented configuration of the scope ("vector variables gathered into one histogram", per-element weights) that
+        // the library refuses: the clause cannot be exercised at all - reported (one signature for the feature as a whole)
         r.count("gather_vector_configs_rejected");
+        r.violation("C15:hist:gatherVectorColvars:documented-configuration-refused",
+                    "{\"unit\":\"gather\",\"component\":\"" + g.name + "\",\"config\":\"" + jesc(conf) + "\",\"error\":\"" + jesc(px->errtxt.substr(0, 400)) + "\"}");
         std::string e = px->errtxt;
         for (auto &ch : e) if (ch == '\n') ch = ' ';
         if (e.size() > 400) e = e.substr(0, 400) + "...";
